@@ -391,6 +391,9 @@ func main() {
 		os.WriteFile(*hashes, []byte(strings.Join(hashLines, "\n")+"\n"), 0o644)
 	}
 	if len(agg.Infra) > 0 {
+		if len(agg.Infra) > 4 {
+			agg.Infra = agg.Infra[:4]
+		}
 		die("harness errors (not violations): %s", strings.Join(agg.Infra, " | "))
 	}
 	sort.Slice(viols, func(i, j int) bool { return viols[i].Index < viols[j].Index })
